@@ -14,6 +14,10 @@ pub struct C18Case {
     pub titles: Vec<String>,
     pub size: usize,
     pub queries: Vec<String>,
+    /// the index is also asked while it is being built: (number of records added so far, query)
+    pub early: Vec<(usize, String)>,
+    /// number of extra prepare() calls made before the judged ones (a long typing session)
+    pub session: usize,
 }
 
 /// long "pasted paragraph" queries against long titles: several hundred shared grams per record
@@ -33,7 +37,7 @@ fn decode_paragraph(src: &mut Source) -> Box<dyn Case> {
         .collect();
     let keep = src.range(70, 100);
     let q = vocab.iter().filter(|_| src.below(100) < keep).cloned().collect::<Vec<_>>().join(" ");
-    Box::new(C18Case { lang, titles, size, queries: vec![q] })
+    Box::new(C18Case { lang, titles, size, queries: vec![q], early: Vec::new(), session: 0 })
 }
 
 pub fn decode(src: &mut Source) -> Box<dyn Case> {
@@ -74,7 +78,16 @@ pub fn decode(src: &mut Source) -> Box<dyn Case> {
             q
         })
         .collect();
-    Box::new(C18Case { lang, titles, size, queries })
+    let mut early = Vec::new();
+    if src.chance(1, 3) {
+        for _ in 0..src.range(1, 3) {
+            let at = src.below(titles.len() + 1).min(if src.chance(1, 2) { 0 } else { usize::MAX });
+            let w: Vec<char> = src.pick(&vocab).chars().collect();
+            early.push((at, w[..1 + src.below(w.len())].iter().collect()));
+        }
+    }
+    let session = if src.chance(1, 80) { src.range(200, 530) } else { 0 };
+    Box::new(C18Case { lang, titles, size, queries, early, session })
 }
 
 impl Case for C18Case {
@@ -87,8 +100,36 @@ impl Case for C18Case {
     fn check(&self, ctx: &mut Ctx) -> Result<(), Violation> {
         let l = lang_of(self.lang);
         let recs: Vec<Rec> = self.titles.iter().enumerate().map(|(i, t)| (i + 1, t.clone(), 0)).collect();
-        let store = build_store(self.lang, &recs, 10);
+        let mut store = Store::new();
+        store.lang = lang_of(self.lang);
+        store.limit = 10;
+        for (i, (id, t, r)) in recs.iter().enumerate() {
+            for (at, q) in &self.early {
+                if *at == i {
+                    let tq = tokenize_query(q, &l);
+                    let _ = store.index.borrow_mut().prepare(&tq.to_ref(), self.size);
+                }
+            }
+            store.add(Record::new(*id, t, *r, &store.lang));
+        }
         let nrec = recs.len();
+        if self.session > 0 {
+            // a long session on one index: the same questions over and over must keep their answer
+            let qs: Vec<TextOwn> = self.queries.iter().map(|q| tokenize_query(q, &l)).filter(|q| !q.words.is_empty()).collect();
+            if !qs.is_empty() {
+                let first: Vec<Vec<usize>> = qs.iter().map(|q| { let mut v = store.index.borrow_mut().prepare(&q.to_ref(), self.size); v.sort(); v }).collect();
+                for k in 0..self.session {
+                    let i = k % qs.len();
+                    let mut v = store.index.borrow_mut().prepare(&qs[i].to_ref(), self.size);
+                    v.sort();
+                    let pos_total = v.len();
+                    if v != first[i] && pos_total <= 10 * self.size && first[i].len() <= 10 * self.size {
+                        return ctx.fail("session-changes-candidates", "", format!("lang={} query={:?} size={} call #{} on the same index returned {:?}, the first call returned {:?}", self.lang, self.queries[i], self.size, k + qs.len(), v, first[i]));
+                    }
+                }
+                ctx.label("long-session");
+            }
+        }
         let gsets: Vec<_> = self.titles.iter().map(|t| gramset(&tokenize_record(t, &l))).collect();
         for qs in &self.queries {
             let q = tokenize_query(qs, &l);
@@ -142,6 +183,7 @@ impl Case for C18Case {
             ctx.count("prepares", 1);
         }
         ctx.label_if(self.size == 0, "size-0");
+        ctx.label_if(!self.early.is_empty(), "asked-while-building");
         ctx.label_if(self.titles.iter().any(|t| t.is_empty()), "empty-title");
         Ok(())
     }
